@@ -42,7 +42,7 @@ def main():
                 env = dict(os.environ)
                 env["SYMX_REPO"] = wt
                 detected = {}
-                for tier in ("quick", "thorough"):
+                for tier in (("quick",) if os.environ.get("SEED_QUICK_ONLY") else ("quick", "thorough")):
                     crc, cout = sh("python3-vt -m symx.check %s --tier %s --no-evidence" % (prop, tier), cwd=HERE, env=env, timeout=4000)
                     labels = sorted(set(re.findall(r"counterexample reproduced on the pristine code: (\S+) --", cout)))
                     detected = {"tier": tier, "exit_code": crc, "labels": labels,
